@@ -3,9 +3,11 @@ from __future__ import annotations
 
 import ast
 
+from .. import shape
 from ..flow import call_name, dotted, norm, writes_in
 from ..index import AnalysisError, walk_local
-from ..lib import cfg_of, defs_of
+from ..lib import defs_of
+from .C07 import _flow_into, _m, _reaches, _rm
 
 FP = "pint.delegates.formatter.plain"
 FL = "pint.delegates.formatter.latex"
@@ -39,6 +41,27 @@ LAYOUT = {
 MODS = {"DefaultFormatter": FP, "CompactFormatter": FP, "PrettyFormatter": FP, "RawFormatter": FP, "HTMLFormatter": FH, "LatexFormatter": FL, "SIunitxFormatter": FL}
 IFACE = ("format_magnitude", "format_unit", "format_quantity", "format_uncertainty", "format_measurement")
 
+
+
+def _formatter_operands(call):
+    """(numerator, denominator) operands of a formatter(...) call, positional or by keyword."""
+    kw = {k.arg: k.value for k in call.keywords}
+    out = list(call.args[:2])
+    for name in ("numerator", "denominator")[len(out):]:
+        if name in kw:
+            out.append(kw[name])
+    return out
+
+
+def _split_half(e, fn):
+    """Which elements of the pair returned by prepare_compount_unit(...) the expression `e` derives from (after
+    resolving local names, including re-bound ones and generator expressions over them): {0}, {1}, ..."""
+    r = shape.resolve(e, fn, depth=8)
+    out = set()
+    for x in ast.walk(r):
+        if isinstance(x, ast.Subscript) and isinstance(x.value, ast.Call) and call_name(x.value) == "prepare_compount_unit" and isinstance(x.slice, ast.Constant):
+            out.add(x.slice.value)
+    return out
 
 
 def sort_functions_total_rule(ck, ix):
@@ -136,10 +159,13 @@ def run(ck, ix, tier):
         if "frac" in div:
             ck.check(norm(kw.get("single_denominator")) == "True", "G-TABLE", f"{cn}|frac-needs-single-denominator", fu.loc(calls[0]), "\\frac takes exactly two groups: the denominator is collected",
                      f"{cn} lays the ratio out with \\frac but single_denominator is not True: with two or more denominator units the terms nest as \\frac[a][\\frac[b][c]] = a*c/b")
-        args = [norm(a) for a in calls[0].args]
-        ck.check(args[:2] == ["numerator", "denominator"], "G-PROV", f"{cn}|numerator-denominator-order", fu.loc(calls[0]), "formatter(numerator, denominator, ...)", f"{cn}.format_unit passes {args[:2]} as (numerator, denominator)")
-        prep = [a for a in walk_local(fu.node) if isinstance(a, ast.Assign) and isinstance(a.value, ast.Call) and call_name(a.value) == "prepare_compount_unit"]
-        ck.check(len(prep) == 1 and [norm(e) for e in prep[0].targets[0].elts] == ["numerator", "denominator"], "G-PROV", f"{cn}|split-unpacked-in-order", fu.loc(), "numerator, denominator = prepare_compount_unit(...)", f"{cn}.format_unit unpacks the numerator/denominator split in the wrong order")
+        # prepare_compount_unit returns (numerator, denominator); the joiner takes (numerator, denominator, ...): its first
+        # argument must derive from element 0 of the split and its second from element 1, whatever the locals are called
+        halves = [_split_half(a, fu.node) for a in _formatter_operands(calls[0])]
+        prep = [c for c in walk_local(fu.node) if isinstance(c, ast.Call) and call_name(c) == "prepare_compount_unit"]
+        ck.check(halves[:2] == [{0}, {1}], "G-PROV", f"{cn}|numerator-denominator-order", fu.loc(calls[0]), "formatter(numerator, denominator, ...)",
+                 f"{cn}.format_unit passes elements {[sorted(h) for h in halves[:2]]} of the (numerator, denominator) split as (numerator, denominator)")
+        ck.check(len(prep) == 1 and len(halves) >= 2 and (halves[0] | halves[1]) == {0, 1}, "G-PROV", f"{cn}|split-unpacked-in-order", fu.loc(), "numerator, denominator = prepare_compount_unit(...)", f"{cn}.format_unit unpacks the numerator/denominator split in the wrong order")
     # plain-text spellings are parser operators
     for cn in ("DefaultFormatter", "CompactFormatter"):
         w = LAYOUT[cn]
@@ -152,8 +178,17 @@ def run(ck, ix, tier):
     ck.check(isinstance(pex, ast.Constant) and pex.value == "⁰¹²³⁴⁵⁶⁷⁸⁹", "G-TABLE", "_PRETTY_EXPONENTS|digits-in-order", fh.relpath, "superscript digits 0-9 in order", f"_PRETTY_EXPONENTS is {getattr(pex, 'value', None)!r}")
     f = ix.func(FHELP, "pretty_fmt_exponent")
     ck.analysed(f)
-    src = norm(f.node)
-    ck.check(".replace('-', '⁻')" in src and "for n in range(10)" in src and "ret.replace(str(n), _PRETTY_EXPONENTS[n])" in src, "G-TABLE", "pretty_fmt_exponent|minus-and-digits", f.loc(),
+    # both rewrites must reach the returned string: '-' -> '⁻', and, in a loop over the ten digits, str(d) -> table[d]
+    sinks = [r.value for r in shape.returns_of(f.node)]
+    flow = _flow_into(f.node, sinks)
+    minus = any(_reaches(c, f.node, sinks, flow) for c in walk_local(f.node) if isinstance(c, ast.Call) and _m(c, "_S.replace('-', '⁻')") is not None)
+    digits = False
+    for loop in [l for l in walk_local(f.node) if isinstance(l, ast.For) and isinstance(l.target, ast.Name) and norm(l.iter) in ("range(10)", "range(len(_PRETTY_EXPONENTS))")]:
+        d = loop.target.id
+        for a in [a for st in loop.body for a in ast.walk(st) if isinstance(a, ast.Assign) and len(a.targets) == 1 and isinstance(a.targets[0], ast.Name)]:
+            b = _m(a.value, f"_S.replace(str({d}), _PRETTY_EXPONENTS[{d}])")
+            digits = digits or (b is not None and b["_S"] == a.targets[0].id and a.targets[0].id in flow)
+    ck.check(minus and digits, "G-TABLE", "pretty_fmt_exponent|minus-and-digits", f.loc(),
              "minus -> ⁻, digit n -> n-th superscript, for all ten digits", "pretty_fmt_exponent no longer maps '-' to '⁻' and each of the ten digits to its superscript")
     subs = [s_ for s_ in walk_local(f.node) if isinstance(s_, ast.Subscript) and norm(s_.value) == "_PRETTY_EXPONENTS"]
     for s_ in subs:
@@ -180,7 +215,6 @@ def run(ck, ix, tier):
     # ------------------------------------------------------------ the term joiner
     f = ix.func(FHELP, "formatter")
     ck.analysed(f)
-    from .. import shape
     from ..lib import defs_of as _defs_of
     allnodes = list(ast.walk(f.node))          # includes nested defs/lambdas: the joiner may use local helpers
     is_name = lambda x, n: isinstance(x, ast.Name) and x.id == n
@@ -193,11 +227,30 @@ def run(ck, ix, tier):
     plain = [c for c in allnodes if isinstance(c, ast.Call) and is_name(c.func, "exp_call") and not (c.args and isinstance(c.args[0], ast.Call) and is_name(c.args[0].func, "abs"))]
     ck.check(all(shape.holds_at(c, f.node, as_ratio, False) for c in plain), "G-PROV", "formatter|signed-exponents-only-without-ratio", f.loc(plain[0]) if plain else f.loc(), "signed exponents only in the product layout", "a signed exponent is rendered in the ratio layout")
     # (b) exponent 1 in the numerator / exponent -1 in a ratio denominator are not written
-    eq1 = [c for c in allnodes if isinstance(c, ast.Compare) and len(c.ops) == 1 and isinstance(c.ops[0], ast.Eq) and (is_const(c.comparators[0], 1) or is_const(c.left, 1)) and shape.iterates_over(c, f.node, "numerator")]
-    ck.check(len(eq1) >= 1, "G-PROV", "formatter|exponent-one-omitted", f.loc(), "numerator terms test `exponent == 1`", "exponent 1 is no longer omitted for numerator terms")
-    eqm1 = [c for c in allnodes if isinstance(c, ast.Compare) and len(c.ops) == 1 and isinstance(c.ops[0], ast.Eq) and (is_const(c.comparators[0], -1) or is_const(c.left, -1)) and shape.iterates_over(c, f.node, "denominator")]
-    okm1 = bool(eqm1) and all(isinstance(getattr(c, "_parent", None), ast.BoolOp) and isinstance(c._parent.op, ast.And) and any(is_name(v, "as_ratio") for v in c._parent.values) for c in eqm1)
-    ck.check(okm1, "G-PROV", "formatter|denominator-exponent-minus-one-omitted", f.loc(eqm1[0]) if eqm1 else f.loc(), "`exponent == -1 and as_ratio` omits the exponent in a ratio denominator", "the -1 exponent handling in the denominator changed (it must apply only in ratio layout)")
+    # role: a "bare term" = the name of a term collected on its own (appended / element of the comprehension, possibly as a
+    # branch of a conditional expression, not as an argument of a formatting call) in the loop / comprehension over one side; it may only occur where the exponent of the term is known to be 1 (numerator) / -1 in ratio layout
+    def bare_terms(side):
+        out = []
+        for x in allnodes:
+            if isinstance(x, (ast.For, ast.comprehension)) and any(is_name(y, side) for y in ast.walk(x.iter)) and isinstance(x.target, ast.Tuple) and len(x.target.elts) == 2 and all(isinstance(e, ast.Name) for e in x.target.elts):
+                k, v = (e.id for e in x.target.elts)
+                comp = getattr(x, "_parent", None)
+                scope = x.body if isinstance(x, ast.For) else [getattr(comp, fld) for fld in ("elt", "key", "value") if getattr(comp, fld, None) is not None]
+                for n in [n for st in scope for n in ast.walk(st) if is_name(n, k) and isinstance(n.ctx, ast.Load)]:
+                    cur, par = n, getattr(n, "_parent", None)
+                    while isinstance(par, ast.IfExp) and cur is not par.test:      # a branch of a conditional expression
+                        cur, par = par, getattr(par, "_parent", None)
+                    collected = (isinstance(par, ast.Call) and isinstance(par.func, ast.Attribute) and par.func.attr == "append" and any(cur is a for a in par.args)) \
+                        or (isinstance(par, (ast.ListComp, ast.GeneratorExp, ast.SetComp)) and cur is par.elt) or isinstance(par, ast.Yield)
+                    if collected:
+                        out.append((n, v))
+        return out
+    b1 = bare_terms("numerator")
+    ck.check(bool(b1) and all(shape.holds_at(n, f.node, lambda a, v=v: _m(a, f"{v} == 1", f"1 == {v}") is not None, True) for n, v in b1), "G-PROV", "formatter|exponent-one-omitted", f.loc(b1[0][0]) if b1 else f.loc(),
+             "numerator terms test `exponent == 1`", "exponent 1 is no longer omitted for numerator terms")
+    bm1 = bare_terms("denominator")
+    okm1 = bool(bm1) and all(shape.holds_at(n, f.node, lambda a, v=v: _m(a, f"{v} == -1", f"-1 == {v}") is not None, True) and shape.holds_at(n, f.node, as_ratio, True) for n, v in bm1)
+    ck.check(okm1, "G-PROV", "formatter|denominator-exponent-minus-one-omitted", f.loc(bm1[0][0]) if bm1 else f.loc(), "`exponent == -1 and as_ratio` omits the exponent in a ratio denominator", "the -1 exponent handling in the denominator changed (it must apply only in ratio layout)")
     # (c) an empty numerator is written as '1'
     one = [b for b in allnodes if isinstance(b, ast.BoolOp) and isinstance(b.op, ast.Or) and is_const(b.values[-1], "1") and isinstance(b.values[0], ast.Call) and call_name(b.values[0]) == "join_u"]
     ck.check(len(one) == 1, "G-PROV", "formatter|empty-numerator-is-one", f.loc(), "an empty numerator is written as 1", "an empty numerator is no longer written as '1'")
@@ -219,11 +272,19 @@ def run(ck, ix, tier):
     its = {n for x in allnodes if isinstance(x, (ast.For, ast.comprehension)) for n in ("numerator", "denominator") if any(is_name(y, n) for y in ast.walk(x.iter))}
     ck.check(its == {"numerator", "denominator"}, "G-PROV", "formatter|terms-from-both-sides", f.loc(), "walks numerator and denominator", "formatter no longer walks both numerator and denominator")
     f = ix.func(FHELP, "join_mu")
-    ck.check("if ustr.startswith('1 / '):" in norm(f.node) and "ustr[2:]" in norm(f.node), "G-TABLE", "join_mu|drops-placeholder-numerator", f.loc(), "`3` and `1 / m` become `3 / m`", "join_mu no longer drops the '1' placeholder of an empty numerator")
+    # where the unit string is known to start with '1 / ', what is joined is the unit string without its first two characters;
+    # elsewhere the unit string itself
+    starts = lambda a: _m(a, "ustr.startswith('1 / ')") is not None
+    joins = [(r, _rm(r.value, f.node, "joint_fstring.format(mstr, _U)")) for r in shape.returns_of(f.node)]
+    joins = [(r, b["_U"]) for r, b in joins if b is not None]
+    okj = any(u == "ustr[2:]" for _, u in joins) and all((u == "ustr[2:]" and shape.holds_at(r, f.node, starts, True)) or (u == "ustr" and shape.holds_at(r, f.node, starts, False)) for r, u in joins)
+    ck.check(okj, "G-TABLE", "join_mu|drops-placeholder-numerator", f.loc(), "`3` and `1 / m` become `3 / m`", "join_mu no longer drops the '1' placeholder of an empty numerator")
     pc = ix.func("pint.delegates.formatter._compound_unit_helpers", "prepare_compount_unit")
     ck.analysed(pc)
-    src = norm(pc.node)
-    ck.check("lambda el: el[1] < 0" in src or "el[1] < 0" in src, "G-PROV", "prepare_compount_unit|negative-exponents-in-denominator", pc.loc(), "negative exponents go to the denominator", "the numerator/denominator split is no longer by the sign of the exponent")
+    # the split is partition(<predicate>, items) with predicate = `item[1] < 0` (element 1 of an item is its exponent)
+    preds = [shape.unalias(c.args[0], pc.node) for c in walk_local(pc.node) if isinstance(c, ast.Call) and call_name(c) == "partition" and len(c.args) == 2]
+    by_sign = lambda l: isinstance(l, ast.Lambda) and len(l.args.args) == 1 and _m(l.body, f"{l.args.args[0].arg}[1] < 0", f"0 > {l.args.args[0].arg}[1]") is not None
+    ck.check(bool(preds) and all(by_sign(l) for l in preds), "G-PROV", "prepare_compount_unit|negative-exponents-in-denominator", pc.loc(), "negative exponents go to the denominator", "the numerator/denominator split is no longer by the sign of the exponent")
 
     # ------------------------------------------------------------ (b) dispatch order
     ff = ix.func(FF, "FullFormatter.__init__")
@@ -238,15 +299,22 @@ def run(ck, ix, tier):
     ck.check(not bad, "G-EXH", "FullFormatter|no-key-shadows-a-longer-key", ff.loc(), "no format key precedes a key that contains it",
              f"get_formatter takes the first key that is a substring of the spec: {bad} means the longer key can never be selected")
     gf = ix.func(FF, "FullFormatter.get_formatter")
-    ck.check("for k, v in self._formatters.items():" in norm(gf.node) and "if k in spec:" in norm(gf.node) and "if spec == ''" in norm(gf.node), "G-EXH", "get_formatter|first-contained-key-wins", gf.loc(), "empty spec -> D; else first contained key", "get_formatter's selection rule changed")
+    # (1) where `spec == ''` holds the 'D' formatter is returned; (2) inside a loop over self._formatters.items() the value
+    # of the entry is returned where its key is known to be contained in the spec (so the first such entry wins)
+    empty = lambda a: _m(a, "spec == ''", "'' == spec") is not None
+    dflt = [r for r in shape.returns_of(gf.node) if _rm(r.value, gf.node, "self._formatters['D']") is not None and shape.holds_at(r, gf.node, empty, True)]
+    first = []
+    for loop in [l for l in walk_local(gf.node) if isinstance(l, ast.For) and _rm(l.iter, gf.node, "self._formatters.items()") is not None and isinstance(l.target, ast.Tuple) and len(l.target.elts) == 2 and all(isinstance(e, ast.Name) for e in l.target.elts)]:
+        k, v = (e.id for e in loop.target.elts)
+        first += [r for st in loop.body for r in ast.walk(st) if isinstance(r, ast.Return) and isinstance(r.value, ast.Name) and r.value.id == v and shape.holds_at(r, gf.node, lambda a, k=k: _m(a, f"{k} in spec") is not None, True)]
+    ck.check(bool(dflt) and bool(first), "G-EXH", "get_formatter|first-contained-key-wins", gf.loc(), "empty spec -> D; else first contained key", "get_formatter's selection rule changed")
     sh = ix.module("pint.delegates.formatter._spec_helpers")
     for q in ("extract_custom_flags", "remove_custom_flags"):
         f = sh.functions[q]
-        from .. import shape as _shape
         srt = []
         for c in walk_local(f.node):
             if isinstance(c, ast.Call):
-                ex = _shape.expand(ix, f, c)   # sees through private single-return helpers and temporaries
+                ex = shape.expand(ix, f, c)   # sees through private single-return helpers and temporaries
                 for x in ast.walk(ex):
                     if isinstance(x, ast.Call) and isinstance(x.func, ast.Name) and x.func.id == "sorted" and x.args and "REGISTERED_FORMATTERS" in norm(x.args[0]):
                         kw = {k.arg: norm(k.value) for k in x.keywords}
@@ -285,7 +353,8 @@ def run(ck, ix, tier):
     for mod, q, frag in (("pint.facets.plain.quantity", "PlainQuantity.__format__", "self._REGISTRY.formatter.format_quantity(self, spec)"), ("pint.facets.plain.quantity", "PlainQuantity.__str__", "self._REGISTRY.formatter.format_quantity(self)"),
                          ("pint.facets.plain.unit", "PlainUnit.__format__", "self._REGISTRY.formatter.format_unit(self, spec)"), ("pint.facets.plain.unit", "PlainUnit.__str__", "self._REGISTRY.formatter.format_unit(self)")):
         f = ix.func(mod, q)
-        ck.check(frag in norm(f.node), "G-PROV", f"{q}|delegates-to-registry-formatter", f.loc(), frag, f"{q} no longer delegates to the registry's formatter")
+        rets = shape.returns_of(f.node)
+        ck.check(bool(rets) and all(_rm(r.value, f.node, frag) is not None for r in rets), "G-PROV", f"{q}|delegates-to-registry-formatter", f.loc(), frag, f"{q} no longer delegates to the registry's formatter")
 
     # ------------------------------------------------------------ memo discipline of the format helpers
     lru_inventory_rule(ck, ix)
